@@ -22,16 +22,19 @@ def instances(tier):
     n = 6 if q else 8
     for b in range(0, n + 2):
         for e in range(0, n + 3):
-            if b == e: continue          # putFile(path, b, e) uses b == e == 0 for "whole file": single-byte ranges are outside its interface
+            if b == e == 0: continue     # "bytes=0-0" is the library's spelling of the whole file
             if q and (b > 3 and e > 3 and e < n - 1): continue
             out.append({'entry': 'h_exchange', 'params': [0, 5, n, b, e],
                         'bound': 'GET with Range: bytes=%d-%d on a %d-byte file of symbolic bytes' % (b, e, n)})
+    for f0 in (0, 1, 2):
+        for f1 in (0, 1, 2):
+            out.append({'entry': 'h_keepalive', 'params': [f0, f1], 'bound': 'two requests back to back on one kept-alive server connection, framing %s then %s, symbolic bodies and query values' % (('no body', 'Content-Length', 'chunked')[f0], ('no body', 'Content-Length', 'chunked')[f1])})
     return out
 
 
 BOUNDS = {'quick': 'one request/response exchange between Http::request and HttpServer::serve(Socket): request bodies of 0/1/3 symbolic bytes, responses of 0/1/4 symbolic bytes as byte body, 201, JSON, file, chunk-framed stream; every range b != e with b <= 7, e <= 8 on a 6-byte file (subset); symbolic printable header and query values',
           'thorough': 'request bodies to 8 bytes, responses to 8 bytes, every range b != e with b <= 9, e <= 10 on an 8-byte file'}
 OUTSIDE = ['bodies longer than 8 bytes (the 16000/128000-byte block boundaries are not reached)', 'concurrent clients and handler threads (the server runs synchronously inside the socket model when the client waits for input)',
-           'kept-alive client connections (Http::request always opens a fresh one)', 'single-byte ranges [b,b]', 'redirects, TLS, multipart uploads, real sockets and timeouts']
+           'kept-alive client connections (Http::request always opens a fresh one; the server side of a kept-alive connection is covered with a raw client)', 'redirects, TLS, multipart uploads, real sockets and timeouts']
 ASSUMPTIONS = ['sockets = env/vsock.c (connect() pairs the client with a server socket, the registered server callback runs to completion when the client first waits for input, then the peer is closed)',
                'files = env/vstdio.c; getaddrinfo returns one IPv4 address; clock advances per query']
